@@ -14,7 +14,7 @@ import (
 var verifYieldHook atomic.Value // of func(int)
 
 // verifYield hands control to the installed schedule controller, if any.
-// Points: 1,2 counter.value; 11 gauge.Update; 21 gauge.report; 22 gauge.cachedReport.
+// Points: 1,2,3 counter.value; 11 gauge.Update; 21 gauge.report; 22 gauge.cachedReport.
 func verifYield(point int) {
 	if f, _ := verifYieldHook.Load().(func(int)); f != nil {
 		f(point)
